@@ -1,11 +1,16 @@
 import GlueVerif.Sexp
 import GlueVerif.Model.Collection
+import GlueVerif.Model.CollectionDelay
 /-! Line-protocol driver for C06 (one subset per group per dataset).
 
 Case: `(seq (nData nColors (op …)) <python snapshots>)`.  The python output is the list of
 snapshots of the real collection, one before the first op and one after every op.  The driver
-answers with the model's snapshots (`impl`), the Spec verdict on every *python* snapshot (`ok`),
-the Spec verdict on every model state (`implok`), and a branch atom.
+answers with the model's snapshots (`impl`), the Spec verdict on every *python* snapshot taken at a
+quiescent point — no `hub.delay_callbacks()` block open, decided from the op list alone — (`ok`),
+the Spec verdict on every quiescent model state (`implok`), and a branch atom.  Ops `(dopen)` /
+`(dclose)` enter / leave a delay block; snapshots are also taken (and compared with the model)
+inside blocks, where the last field `(h depth (A d)|(X d) …)` shows the hub's depth and its queued
+Add / Delete messages.
 
 Snapshot: `((D d…) (G g…) (R g…) (n nData nGroup sgCount) (ds (sub…)…) (gs (sub…)…)
 (gv (state label style)…) (lb l…) (rd (name state label style same)…) (cs (cmd…) (cmd…)))`,
@@ -16,7 +21,7 @@ Subset names are canonical: numbered in order of first appearance while walking 
 snapshot after snapshot (both sides use the same walk). -/
 open GlueVerif GlueVerif.Sexp GlueVerif.Collection
 
-def opOf? : Sexp → Option Op
+def baseOpOf? : Sexp → Option Op
   | .list [.atom "app", d] => d.toNat?.map .append
   | .list (.atom "ext" :: ds) => (ds.mapM toNat?).map .extend
   | .list [.atom "rem", d] => d.toNat?.map .remove
@@ -35,6 +40,11 @@ def opOf? : Sexp → Option Op
   | .list [.atom "undo"] => some .undo
   | .list [.atom "redo"] => some .redo
   | _ => none
+
+def opOf? : Sexp → Option DOp
+  | .list [.atom "dopen"] => some .delayOpen
+  | .list [.atom "dclose"] => some .delayClose
+  | e => (baseOpOf? e).map .op
 
 abbrev Ren := List (Nat × Nat)
 
@@ -65,7 +75,12 @@ def cmdOf? : Sexp → Option DCmd
   | .list [.atom "r", d, i] => do some ⟨false, ← d.toNat?, true, ← i.toNat?⟩
   | _ => none
 
-def snapshot (m : Ren) (st : State) : Sexp :=
+def qmsgSexp : QMsg → Sexp
+  | .add d => .list [.atom "A", ofNat d]
+  | .del d => .list [.atom "X", ofNat d]
+
+def snapshot (m : Ren) (ds : DState) : Sexp :=
+  let st := ds.col
   let gv := fun (v : GVals) => Sexp.list [valSexp v.state, valSexp v.label, valSexp v.style]
   let seen := dedupIds ((allSubs st).map (·.id))
   let subOf := fun (k : Nat) => ((allSubs st).find? (·.id == k))
@@ -79,7 +94,8 @@ def snapshot (m : Ren) (st : State) : Sexp :=
     tagged "rd" (seen.filterMap fun k => (subOf k).map fun s =>
       let v := readSub st s
       .list [ofNat (renLookup m k), valSexp v.state, valSexp v.label, valSexp v.style, ofBool true]),
-    tagged "cs" [.list (st.done.map cmdSexp), .list (st.undone.map cmdSexp)]]
+    tagged "cs" [.list (st.done.map cmdSexp), .list (st.undone.map cmdSexp)],
+    tagged "h" (ofNat ds.depth :: ds.queue.map qmsgSexp)]
 
 /-! ### parsing a python snapshot into an observed `State` + reads -/
 
@@ -104,7 +120,7 @@ def parseSnap (colors : Nat) : Sexp → Option (State × List Read)
   | .list [.list (.atom "D" :: ds), .list (.atom "G" :: gs), .list (.atom "R" :: rs),
            .list [.atom "n", nd, ng, sg], .list (.atom "ds" :: dss), .list (.atom "gs" :: gss),
            .list (.atom "gv" :: gvs), .list (.atom "lb" :: lbs), .list (.atom "rd" :: rds),
-           .list [.atom "cs", .list dn, .list un]] => do
+           .list [.atom "cs", .list dn, .list un], .list (.atom "h" :: _)] => do
     let D ← ds.mapM toNat?
     let G ← gs.mapM toNat?
     let R ← rs.mapM toNat?
@@ -140,50 +156,78 @@ def pySnapOk (colors : Nat) (e : Sexp) : Bool :=
 
 /-- classification of the op sequence for the evidence: does it re-append a removed dataset while a
 group is live (`r`), restore (`s`), merge / setitem / insert / undo / redo (`m`), remove a group
-(`g`), put a dataset in front of another one by `insert` or an undo (`p`). -/
-def branchOf (n colors : Nat) (ops : List Op) : String :=
-  let rec go (st : State) (removed : List Nat) (r s m g p : Bool) : List Op → (Bool × Bool × Bool × Bool × Bool)
-    | [] => (r, s, m, g, p)
+(`g`), put a dataset in front of another one by `insert` or an undo (`p`), queue a collection
+message inside a delay block (`d`), nest delay blocks (`n`), change the group list while a message
+is queued (`w`), reach a state where the `_add_data` guard of fix F26 matters (`k`: the model
+without the guard ends in a different state). -/
+def branchOf (n colors : Nat) (ops : List DOp) : String :=
+  let rec go (ds : DState) (removed : List Nat) (r s m g p q nn w : Bool) :
+      List DOp → (Bool × Bool × Bool × Bool × Bool × Bool × Bool × Bool)
+    | [] => (r, s, m, g, p, q, nn, w)
     | op :: rest =>
-      let st' := Impl.step st op
+      let ds' := Delay.Impl.step ds op
+      let st := ds.col
+      let st' := ds'.col
       let gone := st.datasets.filter (fun d => !st'.datasets.contains d)
       let back := st'.datasets.filter (fun d => !st.datasets.contains d && removed.contains d)
       let r' := r || (!back.isEmpty && !st.groups.isEmpty)
-      let s' := s || (op == .restore)
-      let m' := m || (match op with | .merge _ => true | .setItem _ _ => true | .insert _ _ => true | .undo => true | .redo => true | _ => false)
-      let g' := g || (match op with | .removeGroup _ => true | _ => false)
+      let s' := s || (op == .op .restore)
+      let m' := m || (match op with | .op (.merge _) => true | .op (.setItem _ _) => true | .op (.insert _ _) => true | .op .undo => true | .op .redo => true | _ => false)
+      let g' := g || (match op with | .op (.removeGroup _) => true | _ => false)
       let added := st'.datasets.filter (fun d => !st.datasets.contains d)
       let p' := p || (!added.isEmpty && st'.datasets.getLast? != added.getLast?)
-      go st' (removed ++ gone) r' s' m' g' p' rest
-  let (r, s, m, g, p) := go (init n colors) [] false false false false false ops
+      let q' := q || !ds'.queue.isEmpty
+      let nn' := nn || decide (ds'.depth ≥ 2)
+      let w' := w || (!ds.queue.isEmpty && st.groups != st'.groups)
+      go ds' (removed ++ gone) r' s' m' g' p' q' nn' w' rest
+  let (r, s, m, g, p, q, nn, w) := go (Delay.init n colors) [] false false false false false false false false ops
+  let k := (Delay.Unguarded.run (Delay.init n colors) ops).col.nSub != (Delay.Impl.run (Delay.init n colors) ops).col.nSub
   let b := fun (c : String) (x : Bool) => if x then c else "-"
-  b "r" r ++ b "s" s ++ b "m" m ++ b "g" g ++ b "p" p
+  b "r" r ++ b "s" s ++ b "m" m ++ b "g" g ++ b "p" p ++ b "d" q ++ b "n" nn ++ b "w" w ++ b "k" k
 
-def stepWith (fixed : Bool) (n c : Sexp) (ops : List Sexp) (pyout : Sexp) : String :=
+/-- which snapshots are taken at quiescent points (no delay block open) — from the op list alone. -/
+def quiescentFlags (ops : List DOp) : List Bool :=
+  (ops.foldl (fun (acc : List Bool × Nat) op =>
+      let k := match op with
+        | .delayOpen => acc.2 + 1
+        | .delayClose => acc.2 - 1
+        | .op _ => acc.2
+      (acc.1 ++ [k == 0], k)) ([true], 0)).1
+
+def stepWith (stepFn : DState → DOp → DState) (n c : Sexp) (ops : List Sexp) (pyout : Sexp) : String :=
     match n.toNat?, c.toNat?, ops.mapM opOf? with
     | some n, some colors, some ops =>
       -- model trace: initial state and the state after every op
-      let states := (ops.foldl (fun (acc : List State × State) op =>
-          let st' := Collection.step fixed acc.2 op
-          (acc.1 ++ [st'], st')) ([init n colors], init n colors)).1
+      let states := (ops.foldl (fun (acc : List DState × DState) op =>
+          let st' := stepFn acc.2 op
+          (acc.1 ++ [st'], st')) ([Delay.init n colors], Delay.init n colors)).1
       -- canonical names, threaded through the trace
-      let snaps := (states.foldl (fun (acc : List Sexp × Ren) st =>
-          let m := renExtend acc.2 ((allSubs st).map (·.id))
-          (acc.1 ++ [snapshot m st], m)) ([], [])).1
-      let implok := states.all fun st => specOk st (modelReads st)
+      let snaps := (states.foldl (fun (acc : List Sexp × Ren) ds =>
+          let m := renExtend acc.2 ((allSubs ds.col).map (·.id))
+          (acc.1 ++ [snapshot m ds], m)) ([], [])).1
+      let quiet := quiescentFlags ops
+      let implok := (states.zip quiet).all fun (ds, qf) => !qf || specOk ds.col (modelReads ds.col)
       let ok := match pyout with
-        | .list pys => pys.length == states.length && pys.all (pySnapOk colors)
+        | .list pys => pys.length == states.length &&
+            (pys.zip quiet).all (fun (py, qf) => if qf then pySnapOk colors py else (parseSnap colors py).isSome)
         | _ => false
       driverResult (.list snaps) ok implok true (branchOf n colors ops)
     | _, _, _ => driverError "seq-args"
 
-/-- `seq`: the model of the current code (`Impl`).  `seqold`: the model of the code before
-`fix: F3-remove-data-detach` (`Old`), used once, by hand, against the unfixed tree to validate the
-`Old` model that the witnesses in `Props/C06.lean` are about (see props.d/C06/design.md). -/
+/-- the model of the code before `fix: F3-remove-data-detach` (immediate delivery only). -/
+def oldStep (ds : DState) : DOp → DState
+  | .op o => { ds with col := Collection.step false ds.col o }
+  | _ => ds
+
+/-- `seq`: the model of the current code (`Delay.Impl`).  `seqold`: the model of the code before
+`fix: F3-remove-data-detach` (`Old`, histories without delay blocks), `sequ`: the model of the code
+before `fix: F26-add-data-idempotent` (`Delay.Unguarded`) — both used by hand against the unfixed
+trees to validate the models the witnesses in `Props/C06.lean` are about (props.d/C06/design.md). -/
 def step (line : String) : String :=
   match Sexp.parse line with
-  | some (.list [.atom "seq", .list [n, c, .list ops], pyout]) => stepWith true n c ops pyout
-  | some (.list [.atom "seqold", .list [n, c, .list ops], pyout]) => stepWith false n c ops pyout
+  | some (.list [.atom "seq", .list [n, c, .list ops], pyout]) => stepWith Delay.Impl.step n c ops pyout
+  | some (.list [.atom "seqold", .list [n, c, .list ops], pyout]) => stepWith oldStep n c ops pyout
+  | some (.list [.atom "sequ", .list [n, c, .list ops], pyout]) => stepWith (Delay.step false) n c ops pyout
   | _ => driverError "unknown-family"
 
 def main : IO Unit := driverLoop step
